@@ -13,8 +13,8 @@ for flavour in pure fast; do
   timeout 600 coqc -Q "$coq" TV "$d/$v.v" >/dev/null
   rm -f "$d/$v.v" "$d/$v.vo" "$d/$v.vok" "$d/$v.vos" "$d/$v.glob" "$d/.$v.aux"
   cp "$here/zio_$flavour.ml" zio.ml
-  cp "$here/driver.ml" driver.ml
-  ocamlfind ocamlopt -package zarith -linkpkg -w -a -o driver model.mli model.ml zio.ml driver.ml
+  cp "$here/driver.ml" driver.ml; cp "$here/model_z.ml" model_z.ml
+  ocamlfind ocamlopt -package zarith -linkpkg -w -a -o driver model_z.ml model.mli model.ml zio.ml driver.ml
   rm -f *.cmi *.cmx *.o
 done
 echo "model drivers built"
